@@ -1,6 +1,7 @@
 """Python STIX2 Memory Source/Sink"""
 
 from collections.abc import Mapping
+import copy
 import io
 import itertools
 import json
@@ -96,6 +97,12 @@ def _parse_all(stix_data, allow_custom, version):
             stix_obj = stix_data
         else:
             stix_obj = parse(stix_data, allow_custom, version=version)
+            if stix_obj is stix_data:
+                # (content the parser hands back as it is, e.g. a dictionary
+                # of an unregistered type: the store keeps a copy of its own,
+                # so that later changes to the caller's dictionary do not
+                # change what is stored)
+                stix_obj = copy.deepcopy(stix_obj)
 
         if "id" not in stix_obj:
             # (e.g. an unregistered custom object, which is not validated)
